@@ -605,14 +605,19 @@ class Sharded:
         return self
 
     def _confirm(self, c):
-        try:
-            r = subprocess.run([self.exe] + [str(x) for x in self.single_fn(c)], stdout=subprocess.PIPE,
-                               stderr=subprocess.PIPE, env=self.env, timeout=self.case_timeout, stdin=subprocess.DEVNULL)
-            rep = r.returncode == 77
-            text = r.stderr.decode(errors='replace')[-3000:] + r.stdout.decode(errors='replace')[-1000:]
-        except subprocess.TimeoutExpired as e:
-            rep = True
-            text = ((e.stderr or b'').decode(errors='replace')[-3000:])
+        # a hang that depends on native timing may not show on every run: up to three isolated runs, the first reproduction counts
+        rep, text = False, ''
+        for attempt in range(3):
+            try:
+                r = subprocess.run([self.exe] + [str(x) for x in self.single_fn(c)], stdout=subprocess.PIPE,
+                                   stderr=subprocess.PIPE, env=self.env, timeout=self.case_timeout, stdin=subprocess.DEVNULL)
+                rep = r.returncode == 77
+                text = r.stderr.decode(errors='replace')[-3000:] + r.stdout.decode(errors='replace')[-1000:]
+            except subprocess.TimeoutExpired as e:
+                rep = True
+                text = ((e.stderr or b'').decode(errors='replace')[-3000:])
+            if rep:
+                break
         return (c, rep, text)
 
 
